@@ -1584,6 +1584,19 @@ func cmdCorrO(r *hx.Rng, n int, stats map[string]int) {
 		}
 		tg := newTrackGen(r)
 		ns := r.Pick(0, 1, 2, 2, 3, 3, 4, 6)
+		if i%150 == 7 {
+			// around the count above which DecodeTrun wants a per-sample field (C05-F7): mostly uniform samples
+			ns = r.Pick(1023, 1024, 1025, 1026, 1100)
+			for _, g := range []*fieldGen{tg.fl, tg.du, tg.sz, tg.ct} {
+				if r.Intn(5) != 0 {
+					g.mode = 0
+				}
+			}
+			if r.Intn(3) != 0 {
+				tg.ct.mode, tg.ct.a = 0, 0
+			}
+			stats["O.big"]++
+		}
 		ss := make([]mp4.Sample, ns)
 		for j := range ss {
 			ss[j] = toSample(tg.sample(r))
